@@ -21,6 +21,10 @@ def gen_train_case(rng, encodings=None, coverages=(0.3, 0.6, 1.0), allow_ew=True
               'A5': lambda: rng.choice(['house', 'super', 'world', 'admin', 'hello']),
               'A3O1': lambda: rng.choice(['cat', 'dog', 'fox', 'sun']) + rng.choice('!.#')}[shape]
         items = list({mk(): rng.choice([1, 2, 3]) for _ in range(rng.randint(1, 6))}.items())
+    if enc.startswith('utf-8') and rng.random() < 0.12:
+        # U+FEFF is an ordinary 'other' character for the trainer (a list saved as "UTF-8 with BOM" and read as utf-8 starts with one): here it is the most
+        # frequent value of its terminal file, i.e. the first three bytes of that file
+        items = list(items) + [(rng.choice(['\ufeffpass1', '\ufeff', 'love\ufeff12', '\ufeff\ufeffx']), rng.choice([6, 9]))]
     tiny = rng.random() < 0.05
     if tiny:
         # every password is shorter than the n-gram size (PINs, initials): OMEN learns nothing at all; such a list can only be trained with coverage 1
